@@ -93,7 +93,10 @@ where
             let start = self.ptr;
             self.skip_blank_inline();
             if !self.skip_eol() {
-                self.ptr = start;
+                // spaces that run to the end of input are a blank line, too
+                if self.ptr < self.length {
+                    self.ptr = start;
+                }
                 break;
             }
             count += 1;
